@@ -156,4 +156,9 @@ theorem code_TokenCache_is_a_cache (enc : Go.Any → Nat) (now : Int) (w : W) (k
 theorem code_TokenCache_key_injective (a b : String) (h : Oidc.CodeRefine.tkey a = Oidc.CodeRefine.tkey b) : a = b :=
   Oidc.CodeRefine.tkey_inj a b h
 
+/-- the token cache's clean-up is the clean-up of the cache inside it (translated from helpers.go): everything proved about
+    `Cache.Cleanup` — it removes exactly the expired entries — holds for it -/
+theorem code_TokenCache_Cleanup (now : Go.Time) (tc : Go.CacheS) :
+    Oidc.Generated.Code.TokenCache_Cleanup now tc = Oidc.Generated.Code.Cache_Cleanup now tc := rfl
+
 end Oidc.Props.C12
